@@ -507,24 +507,19 @@ Section Kinds.
     intros W I La Lb Sh. pose proof (atom_rigid _ _ La) as Ra. pose proof (atom_rigid _ _ Lb) as Rb.
     destruct f as [|f]; [apply notok_fuel|].
     cbn [Tc.afix astep r_expr]. unfold expr_body. apply bind_notok_l. cbv beta iota.
-    apply bind_cases; [apply pres_push|assumption|]. intros inner s1 H1 W1 E1.
-    apply bind_cases; [apply pres_push|assumption|]. intros ret0 s2 H2 W2 E2.
-    apply bind_notok_l. cbn [iterM].
+    apply bind_cases; [apply pres_push|assumption|]. intros inner s2 H2 W2 E2.
+    apply bind_notok_l. cbn [foldM].
     (* first element *)
     apply bind_cases; [prs; try apply (ap_expr _ (PA _)); try apply (gp_unify0 G PG)|assumption|]. intros u3 s3 H3 W3 E3.
     apply bind_inv in H3 as ([ar x] & s31 & Hx1 & H3).
     destruct (ap_expr _ (PA _) _ _ _ _ _ W2 Hx1) as [W31 E31].
-    assert (I2 : Inv s2) by (eapply Inv_ext; [exact W| |exact I]; eapply ext_trans; eassumption).
+    assert (I2 : Inv s2) by (eapply Inv_ext; [exact W| |exact I]; exact E2).
     pose proof (atom_spec _ _ _ _ _ _ _ La W2 I2 Hx1) as Hx. cbn [snd] in Hx.
     apply bind_inv in H3 as (u32 & s32 & Hu & H3).
     destruct (unify_ok_heads _ _ _ _ _ _ _ W31 Hu) as (W32 & E32 & Heq).
     assert (E323 : ext s32 s3).
-    { apply bind_inv in H3 as (u33 & s33 & Huo & H3). injection H3 as _ <-.
-      eapply (pres_bind (unify_option G sp (Some ret0) ar) (fun _ => ret tt)); [| |exact W32|].
-      - unfold unify_option. destruct ar; [|apply pres_ret].
-        apply pres_bind; [unfold unify; apply pres_bind; [apply (gp_unify0 G PG)|intros; apply pres_ret]|intros; apply pres_ret].
-      - intros; apply pres_ret.
-      - unfold bind. rewrite Huo. reflexivity. }
+    { assert (PU : pres (unify_option G sp None ar)) by (destruct ar; apply pres_ret).
+      exact (proj2 (PU _ _ _ W32 H3)). }
     assert (Hin3 : head s3 inner = Some ta).
     { apply (head_keep s32 s3 inner ta E323); [|assumption]. rewrite Heq.
       eapply head_keep; eassumption. }
